@@ -59,11 +59,6 @@ def canon_kw(d):
     return [[k, canon_val(v)] for k, v in d.items()]
 
 
-def py_val(v):
-    """generator value (JSON-able) -> python value."""
-    return v
-
-
 # ------------------------------------------------------------------ paths, winding numbers (oracle side)
 
 def flatten(verts, codes, n=48):
